@@ -54,6 +54,43 @@ func c02PortOrder(r *core.Run, prog *core.Program) {
 	}
 	info := pk.TypesInfo
 	n := 0
+	// helpers that render a connection triple (a literal containing "_valid, " in their body)
+	emitters := map[types.Object]bool{}
+	wireNamers := map[types.Object]bool{}
+	core.FuncDecls(pk, func(_ *ast.File, fd *ast.FuncDecl) {
+		if fd.Name.Name == "Write_verilog_main" {
+			return
+		}
+		has := false
+		ast.Inspect(fd.Body, func(m ast.Node) bool {
+			if bl, ok := m.(*ast.BasicLit); ok && bl.Kind == token.STRING && strings.Contains(bl.Value, "_valid, ") {
+				has = true
+			}
+			return !has
+		})
+		if has {
+			if o := info.Defs[fd.Name]; o != nil {
+				emitters[o] = true
+			}
+		}
+		// ... or that return the three wire names of a connection separately (a tuple of at least
+		// three strings, built from "_valid" and "_received")
+		if fd.Type.Results != nil && fd.Type.Results.NumFields() >= 3 {
+			v, rc := false, false
+			ast.Inspect(fd.Body, func(m ast.Node) bool {
+				if bl, ok := m.(*ast.BasicLit); ok && bl.Kind == token.STRING {
+					v = v || strings.Contains(bl.Value, "_valid")
+					rc = rc || strings.Contains(bl.Value, "_received")
+				}
+				return true
+			})
+			if v && rc {
+				if o := info.Defs[fd.Name]; o != nil {
+					wireNamers[o] = true
+				}
+			}
+		}
+	})
 	core.FuncDecls(pk, func(_ *ast.File, fd *ast.FuncDecl) {
 		if fd.Name.Name != "Write_verilog_main" {
 			return
@@ -72,9 +109,28 @@ func c02PortOrder(r *core.Run, prog *core.Program) {
 			return true
 		})
 		k := 0
+		// locals holding the wire names returned by a wire-namer helper
+		wireLocal := map[types.Object]bool{}
+		ast.Inspect(fd.Body, func(m ast.Node) bool {
+			if as, ok := m.(*ast.AssignStmt); ok && len(as.Rhs) == 1 && len(as.Lhs) >= 3 {
+				if call, ok := ast.Unparen(as.Rhs[0]).(*ast.CallExpr); ok && wireNamers[core.CalleeOf(info, call)] {
+					for _, l := range as.Lhs {
+						if id, ok := l.(*ast.Ident); ok {
+							if o := info.ObjectOf(id); o != nil {
+								wireLocal[o] = true
+							}
+						}
+					}
+				}
+			}
+			return true
+		})
 		ast.Inspect(fd.Body, func(m ast.Node) bool {
 			as, ok := m.(*ast.AssignStmt)
 			if !ok || len(as.Rhs) != 1 {
+				return true
+			}
+			if call, ok := ast.Unparen(as.Rhs[0]).(*ast.CallExpr); ok && wireNamers[core.CalleeOf(info, call)] {
 				return true
 			}
 			var leaves []ast.Expr
@@ -84,6 +140,15 @@ func c02PortOrder(r *core.Run, prog *core.Program) {
 				if sl, ok := constStr(info, l); ok && strings.Contains(sl, "_valid, ") {
 					triple = true
 				}
+				if id, ok := ast.Unparen(l).(*ast.Ident); ok && wireLocal[info.ObjectOf(id)] {
+					triple = true
+				}
+				ast.Inspect(l, func(q ast.Node) bool {
+					if call, ok := q.(*ast.CallExpr); ok && emitters[core.CalleeOf(info, call)] {
+						triple = true
+					}
+					return true
+				})
 			}
 			if !triple {
 				return true
